@@ -200,7 +200,7 @@ def _c16_ids(name):
     return lab in ("IG1", "IG2", "IG3", "SK1") or lab.startswith("gen.") or lab.startswith("skip.") or lab.endswith("IdGenerator::gen.safety") or "skip" in lab
 
 
-prop("C16", ["toposort", "rq_tables", "ids_names", "lower_cols", "rq_shape", "lineage_except", "rq_fold", "flatten_sort", "table_instance", "pl_fold"], select={"ids_names": _c16_ids, "flatten_sort": lambda n: n.split(".", 1)[1] in ("FO1", "FO2", "FT1", "FT3", "flatten_other_arm.safety")},
+prop("C16", ["toposort", "rq_tables", "ids_names", "lower_cols", "rq_shape", "lineage_except", "rq_fold", "flatten_sort", "table_instance", "pl_fold", "lower_expr", "lower_ident"], select={"ids_names": _c16_ids, "flatten_sort": lambda n: n.split(".", 1)[1] in ("FO1", "FO2", "FT1", "FT3", "flatten_other_arm.safety")},
      not_covered="visibility of ids across joins / sub-pipelines (redirect_mappings over node_mapping: HashMap<usize, LoweredTarget>), lower_expr, "
                  "how push_select collects its columns, the rest of create_a_table_instance (which declaration it reads: table_instance TI1); toposort()'s Key->index map and driver loop")
 claim("C16",
@@ -211,7 +211,7 @@ claim("C16",
       "recorded column for an expression lowered before and emits nothing, otherwise appends at most ONE Compute, whose id is the generator's next (fresh) id, and "
       "records the node -> column mapping (lower_cols DC1-4); push_select closes the pipeline with a Select of exactly the ids of the declared columns, in order, "
       "and returns those columns (rq_shape PS1-3); a column merged by `append` keeps referring to the top pipeline's expression and is named by the top, else the bottom "
-      "(AP1-2). the resolver side of what lowering assumes: a named column leaves a star exactly when it is qualified with the local name of the star's input (lineage_except LE3), a column inferred for a wildcard table is declared once per exact name and appended (IC1-2). the PL fold that TableDepsCollector uses to find the tables a declaration refers to visits every sub-expression of every node (pl_fold), so a table referenced only inside a case branch, an s-string or a join condition is still a dependency and is declared earlier. NOT proved: visibility of "
+      "(AP1-2). the resolver side of what lowering assumes: a named column leaves a star exactly when it is qualified with the local name of the star's input (lineage_except LE3), a column inferred for a wildcard table is declared once per exact name and appended (IC1-2). the PL fold that TableDepsCollector uses to find the tables a declaration refers to visits every sub-expression of every node (pl_fold), so a table referenced only inside a case branch, an s-string or a join condition is still a dependency and is declared earlier. an expression is lowered to a column reference only where it needs a window (the column it is declared as, lower_expr LW1) or is an identifier bound to a node (lower_ident LI1-4); every other expression is rebuilt from its own parts (lower_expr LL1 ... LF1), so a value that shares its node id with a column emitted elsewhere is not turned into a reference to that column; looking a column up changes nothing in the Lowerer and answers from the current mapping (lower_ident LK0-2). NOT proved: visibility of "
       "every used id at its point of use (cid redirection through hash maps), select arity.",
       "toposort()'s HashMap index / outer loop, lower_table_decl and the Lowerer's node_mapping are not under contract.")
 
@@ -278,7 +278,7 @@ claim("C08",
       "sqlparser's Display (leaves doubled quotes alone - read in its source, validated by the thorough-tier sweep on SQLite) and sqlformat (white space only, given "
       "its precondition) are trusted; str::parse, str::replace and format! are uninterpreted; date/time/interval arms are not under contract.")
 
-prop("C07", ["set_ops", "limit_clause", "literals", "rel_names", "cte_define", "sql_prec", "static_eval", "positional_map", "rq_fold", "dialect_flags", "literal_rows", "sql_templates", "operator_tpl", "sql_relations"], select={"operator_tpl": lambda n: n.split(".", 1)[1] in ("TP4", "TP4v", "operator_lookup_slice.safety", "operator_lookup_slice.unwrap"), "static_eval": lambda n: n.split(".", 1)[1] in ("SE2w", "SE2i", "SE2x", "static_eval_case.safety"), "literals": lambda n: n.split(".", 1)[1] in ("EI1", "expr_of_i64.safety", "TL1i", "TL1f", "NE1", "FM1"), "sql_prec": lambda n: n.split(".", 1)[1].startswith("NP4.std_neg") or n.endswith(".safety")},
+prop("C07", ["set_ops", "limit_clause", "literals", "rel_names", "cte_define", "sql_prec", "static_eval", "positional_map", "rq_fold", "dialect_flags", "literal_rows", "sql_templates", "operator_tpl", "sql_relations", "split_order", "sstring_cols"], select={"sstring_cols": lambda n: n.split(".", 1)[1] in ("PN1", "PN2", "PN3", "SC1") or n.endswith(".safety"), "split_order": lambda n: n.split(".", 1)[1].startswith(("SO1.Union.", "SO1.Except.", "SO1.Intersect.")) or n.split(".", 1)[1] in ("is_split_required.safety",), "operator_tpl": lambda n: n.split(".", 1)[1] in ("TP4", "TP4v", "operator_lookup_slice.safety", "operator_lookup_slice.unwrap"), "static_eval": lambda n: n.split(".", 1)[1] in ("SE2w", "SE2i", "SE2x", "static_eval_case.safety"), "literals": lambda n: n.split(".", 1)[1] in ("EI1", "expr_of_i64.safety", "TL1i", "TL1f", "NE1", "FM1"), "sql_prec": lambda n: n.split(".", 1)[1].startswith("NP4.std_neg") or n.endswith(".safety")},
      not_covered="scope of every table / column reference, per-dialect grammar, empty projections, relation alias uniqueness (assign_names), "
                  "which dialects besides SQLite have no bare OFFSET (MySQL, BigQuery: the handler table is assumed, not executable here)")
 claim("C07",
@@ -287,7 +287,7 @@ claim("C07",
       "(WR1, loop invariant, any number of CTEs) and carries every CTE (WR2); the set quantifier is ALL iff duplicates are kept and DISTINCT is written "
       "only where the dialect accepts it (SQ1-2); the LIMIT / OFFSET / FETCH clause is one the dialect's grammar has: FETCH never without OFFSET and ORDER BY and "
       "never together with LIMIT (LC1, LC1f), a dialect without bare OFFSET gets a LIMIT meaning `no limit` whenever it gets an OFFSET (LC3, LC4), row counts are "
-      "written as plain decimal digits (literals EI1); CTE names and relation aliases are unique in their scope (rel_names AN1-2, RN1-2); nested unary minus never produces the comment token `--` (sql_prec NP4.std_neg rows). a table compiled inline leaves its declaration NotYetDefined, so no reference is compiled to the name of a CTE that was never emitted (cte_define CI1); a `case` that survives constant folding has a WHEN branch - it is neither empty nor a lone `true => v`, which the generator would print as `CASE ELSE v END` (static_eval SE2w, inductive over the branch values); the default RQ fold hands every expression and column id of a node to the folder - array elements, case branches, s-string items, operator arguments, window bounds, sort keys - so CidCollector / CidRedirector see every column reference when a pipeline is split into CTEs (rq_fold FK1 ... FD1, loops by invariant); a FROM item is named by its alias unless its own name is the alias (sql_relations RA1-2); a CTE is marked recursive exactly when it is a loop, and a loop is `initial UNION ALL step` (TC1-2). The sentence "
+      "written as plain decimal digits (literals EI1); CTE names and relation aliases are unique in their scope (rel_names AN1-2, RN1-2); nested unary minus never produces the comment token `--` (sql_prec NP4.std_neg rows). a table compiled inline leaves its declaration NotYetDefined, so no reference is compiled to the name of a CTE that was never emitted (cte_define CI1); a `case` that survives constant folding has a WHEN branch - it is neither empty nor a lone `true => v`, which the generator would print as `CASE ELSE v END` (static_eval SE2w, inductive over the branch values); the default RQ fold hands every expression and column id of a node to the folder - array elements, case branches, s-string items, operator arguments, window bounds, sort keys - so CidCollector / CidRedirector see every column reference when a pipeline is split into CTEs (rq_fold FK1 ... FD1, loops by invariant); a FROM item is named by its alias unless its own name is the alias (sql_relations RA1-2); a CTE is marked recursive exactly when it is a loop, and a loop is `initial UNION ALL step` (TC1-2). nothing but a sort or another set operation stays in the SELECT of a set operation - a join, a filter, a compute after it starts a new SELECT over a CTE (split_order SO1.Union / Except / Intersect rows), which is what translate_set_ops_pipeline relies on; the columns declared for an s-string relation are names its SELECT list really produces (sstring_cols PN1-3, SC1). The sentence "
       "'every accepted program compiles to valid SQL of the dialect' is NOT what is proved.",
       "dialect flags and translate_cte are parameters / externals of the slices; the rest of except(), translate_query and "
       "translate_set_ops_pipeline is dropped.")
